@@ -98,14 +98,39 @@ UNSAFE_SUBCOMMANDS = {
 }
 
 
+# Flags of `kubectl exec` (and global ones) that take no value
+EXEC_BOOL_FLAGS = frozenset(
+    {
+        "--stdin",
+        "--tty",
+        "--quiet",
+        "--insecure-skip-tls-verify",
+        "--match-server-version",
+        "--disable-compression",
+        "--warnings-as-errors",
+    }
+)
+
+
 def _extract_exec_inner_command(tokens: list[str]) -> list[str] | None:
     """Extract command from kubectl exec args (after -- separator)."""
-    try:
-        sep_idx = tokens.index("--")
-        result = tokens[sep_idx + 1 :]
-        return result if result else None
-    except ValueError:
-        return None  # No -- separator
+    # The first `--` that is not itself the value of a flag
+    i = 0
+    while i < len(tokens):
+        token = tokens[i]
+        if token == "--":
+            result = tokens[i + 1 :]
+            return result if result else None
+        if token.startswith("-") and "=" not in token and token not in EXEC_BOOL_FLAGS:
+            if not token.startswith("--") and len(token) > 2 and token[1] in "cnfsv":
+                i += 1  # attached value: -cCONTAINER
+            elif not token.startswith("--") and all(c in "itq" for c in token[1:]):
+                i += 1  # boolean cluster: -it
+            else:
+                i += 2  # the flag takes the next word as its value, whatever it is
+            continue
+        i += 1
+    return None  # No -- separator
 
 
 def classify(ctx: HandlerContext) -> Classification:
